@@ -264,14 +264,18 @@ pub fn judge(directed: bool, strkeys: bool, generic: Option<&G>, result: &Result
         return Ok("ok-uninterpretable");
     }
     // every node and edge comes from the document
+    // (which of several declarations of one key wins is the container's
+    // insert contract, C18; here the value only has to be a declared one)
     for (k, v) in &l.nodes {
-        let first = sec0.iter().find_map(|e| match e {
-            G::Arr(t) if t.len() >= 2 && t[0] == *k => Some(&t[1]),
-            _ => None,
-        });
-        match first {
-            Some(G::Int(x)) if x == v => {}
-            other => return Err(("node-not-from-document".into(), format!("graph has node {:?} with value {}, the document's first declaration of that key has value {:?}", k, v, other))),
+        let declared_vals: Vec<&G> = sec0
+            .iter()
+            .filter_map(|e| match e {
+                G::Arr(t) if t.len() >= 2 && t[0] == *k => Some(&t[1]),
+                _ => None,
+            })
+            .collect();
+        if !declared_vals.iter().any(|x| matches!(x, G::Int(i) if i == v)) {
+            return Err(("node-not-from-document".into(), format!("graph has node {:?} with value {}, the document declares that key with value(s) {:?}", k, v, declared_vals)));
         }
     }
     let doc_edges: Vec<(G, G, i128)> = sec1.iter().filter_map(|e| match e {
